@@ -53,7 +53,7 @@ func genPermutation(t *rapid.T, req []string, allowDup bool) []string {
 }
 
 func genSched(t *rapid.T, wl *CompileWL, optional []string, maxTape int) Sched {
-	sc := Sched{Tape: genTape(t, maxTape), Disabled: genDisabled(t, optional), PCT: genPCT(t, 150)}
+	sc := Sched{Tape: genTape(t, maxTape), Disabled: genDisabled(t, optional), PCT: genPCT(t, 150), Tail: genTail(t)}
 	if rapid.IntRange(0, 5).Draw(t, "victim") == 0 {
 		sc.Victim = "c0/" + wl.Files[rapid.IntRange(0, len(wl.Files)-1).Draw(t, "victimFile")].Name
 	}
